@@ -75,6 +75,47 @@ class Rac:
         except BrokenPipeError:
             pass
 
+    def _restart(self):
+        try:
+            self.p.kill()
+        except Exception:
+            pass
+        env = dict(os.environ, HOME="/var/tmp", XDG_DATA_HOME="/var/tmp/anything-verif-data")
+        self.p = subprocess.Popen([self.bin], stdin=subprocess.PIPE, stdout=subprocess.PIPE, stderr=subprocess.DEVNULL, text=True, bufsize=1, env=env)
+        self.ask({"cmd": "ping"})
+
+    def _ask_chunk_timed(self, part, timeout_s):
+        box = {}
+
+        def work():
+            try:
+                box["a"] = self.ask_many(part, chunk=len(part))
+            except Exception as e:
+                box["e"] = e
+        t = threading.Thread(target=work, daemon=True)
+        t.start()
+        t.join(timeout_s)
+        if t.is_alive() or "e" in box:
+            self._restart()
+            t.join(2)
+            return None
+        return box["a"]
+
+    def ask_many_guarded(self, cmds, chunk=200, per_cmd_s=3.0):
+        """like ask_many, but a command the real library does not answer within per_cmd_s seconds yields {"timeout": true}
+        (the harness process is killed and restarted) instead of hanging the check"""
+        out = []
+        for i in range(0, len(cmds), chunk):
+            part = cmds[i:i + chunk]
+            ans = self._ask_chunk_timed(part, 10.0 + 0.05 * len(part))
+            if ans is None:
+                ans = []
+                for c in part:
+                    a = self._ask_chunk_timed([c], per_cmd_s)
+                    ans.append(a[0] if a is not None else {"timeout": True})
+            out.extend(ans)
+        return out
+
     def query(self, q):
         return self.ask({"cmd": "query", "q": q})
 
